@@ -239,11 +239,13 @@ pub struct Gen {
     pub at_file_end: bool,
     /// ops to issue next, in order (follow-ups of an aimed op)
     pub plan: std::collections::VecDeque<Op>,
+    /// the long-pin scenario (below) is played at most once per run
+    pub long_pin_done: bool,
 }
 
 impl Gen {
     pub fn new(cfg: GenCfg, rng: Rng) -> Gen {
-        Gen { cfg, rng, next_uid: 1, at_file_end: false, plan: Default::default() }
+        Gen { cfg, rng, next_uid: 1, at_file_end: false, plan: Default::default(), long_pin_done: false }
     }
 
     fn uid(&mut self) -> u32 {
@@ -393,6 +395,35 @@ impl Gen {
                             }
                         }
                     }
+                }
+                // long pin: one small record of a slow queue keeps the oldest file alive while another queue fills and
+                // releases twenty more; truncating the slow queue then makes them all reclaimable in one call
+                if cfg.profile == Profile::Rolling && !self.long_pin_done && pos.is_none() && rng.chance(1, 60) {
+                    let other: Vec<usize> = existing.iter().copied().filter(|x| *x != q).collect();
+                    if let Some(&b) = other.first() {
+                        self.long_pin_done = true;
+                        let na = d.model.queues[&d.names[q]].next;
+                        let nb = d.model.queues[&d.names[b]].next;
+                        let rounds = 17 + rng.below(6);
+                        if na < (1 << 62) && nb < (1 << 62) {
+                            let sizes: Vec<u32> = (0..rounds).map(|_| 130_000 + rng.below(3000) as u32).collect();
+                            let release = if rng.chance(2, 3) { Op::Truncate { q, upto: na } } else { Op::Delete { q } };
+                            let first_len = 1 + rng.below(50) as u32;
+                            for (i, len) in sizes.into_iter().enumerate() {
+                                let uid = self.uid();
+                                self.plan.push_back(Op::Append { q: b, pos: None, lens: vec![len], uid });
+                                self.plan.push_back(Op::Truncate { q: b, upto: nb + i as u64 });
+                            }
+                            self.plan.push_back(release);
+                            self.plan.push_back(Op::Restart { policy: None });
+                            return Op::Append { q, pos: None, lens: vec![first_len], uid: self.uid() };
+                        }
+                    }
+                }
+                // a record of a mebibyte or more (memory accounting, buffers that grow and shrink)
+                if cfg.profile == Profile::General && pos.is_none() && rng.chance(1, 400) {
+                    let len = (1 << 20) + rng.below(200_000) as u32;
+                    return Op::Append { q, pos: None, lens: vec![len], uid: self.uid() };
                 }
                 // file-periodic batch: equal records whose serialised size (12 + len) divides the payload capacity of a
                 // whole WAL file (4 * 32761 = 2^2 * 181^2 bytes), long enough to cover at least one file entirely, then
@@ -551,6 +582,9 @@ pub fn gen_foreign(rng: &mut Rng, n: usize) -> Vec<Foreign> {
     out
 }
 
+/// `n_foreign` value asking for a single squatter on one of the next WAL file names instead of random foreign entries.
+pub const SQUATTER: usize = usize::MAX;
+
 /// Generates a case adaptively: each op is chosen after the previous ones ran.
 pub fn generate(seed: u64, profile: Profile, buggify: bool, n_foreign: usize) -> (Case, Driver) {
     generate_with(seed, profile, buggify, n_foreign, profile == Profile::IdleQueues)
@@ -568,7 +602,14 @@ pub fn generate_opts(seed: u64, profile: Profile, buggify: bool, n_foreign: usiz
     let policy = pick_policy(&mut rng, profile);
     let names = gen_names(&mut rng, cfg.n_queues);
     let knobs = gen_knobs(&mut rng, buggify);
-    let foreign = if n_foreign > 0 { gen_foreign(&mut rng, n_foreign) } else { Vec::new() };
+    let foreign = if n_foreign == SQUATTER {
+        // one directory or symlink on the name of one of the next WAL files: the roll-over onto it fails
+        vec![Foreign { name: crate::simfs::wal_name(1 + rng.below(3)), kind: if rng.chance(1, 2) { ForeignKind::Dir } else { ForeignKind::Symlink } }]
+    } else if n_foreign > 0 {
+        gen_foreign(&mut rng, n_foreign)
+    } else {
+        Vec::new()
+    };
     let mut case = Case { names, policy, knobs, foreign, probe_seed: rng.next_u64(), ops: Vec::new() };
     let mut driver = Driver::new(&case);
     driver.lenient = lenient;
